@@ -451,3 +451,40 @@ pub fn run_sfs_fifo(args: &[&str], bytes: &[u8], suffix: &str, scratch: &Scratch
         stderr: out.stderr,
     }
 }
+
+/// Runs `sfs` with stdout connected to the file at `sink` (e.g. `/dev/full`); stdout is then not captured.
+pub fn run_sfs_stdout_to(args: &[&str], stdin: &[u8], sink: &Path, scratch: &Scratch) -> Out {
+    let inp = scratch.file(".stdin", stdin);
+    let sink_f = match fs::OpenOptions::new().write(true).open(sink) {
+        Ok(f) => f,
+        Err(e) => {
+            eprintln!("ENGINE: cannot open {}: {e}", sink.display());
+            std::process::exit(2);
+        }
+    };
+    let mut cmd = Command::new(SFS_BIN);
+    cmd.args(args)
+        .env_clear()
+        .env("SFS_ALLOW_STDIN", "1")
+        .env("RUST_BACKTRACE", "0")
+        .current_dir(&scratch.dir)
+        .stdin(fs::File::open(&inp).expect("open stdin file"))
+        .stdout(sink_f)
+        .stderr(Stdio::piped());
+    // SAFETY: only async-signal-safe libc calls between fork and exec.
+    unsafe {
+        cmd.pre_exec(|| {
+            libc::alarm(60);
+            Ok(())
+        });
+    }
+    let out = match cmd.output() {
+        Ok(o) => o,
+        Err(e) => {
+            eprintln!("ENGINE: cannot run {SFS_BIN}: {e}");
+            std::process::exit(2);
+        }
+    };
+    let _ = fs::remove_file(inp);
+    Out { code: out.status.code(), signal: out.status.signal(), stdout: Vec::new(), stderr: out.stderr }
+}
